@@ -78,6 +78,9 @@ def batch_run(ctx, report, facts, config, rule="C04.FANOUT"):
         op = b.blocks[plans[0]]["term"]["args"][1]
         if not (op["k"] == "move" and isinstance(args[1], tuple) and args[1][0] == "call" and bt.callee(args[1][1]).name == "system_data"):
             problems.append("the plan's system data is not moved into `plan` (it would still be borrowed during the inner dispatches)")
+    world_calls = [Callee(t["func"]).name for bb, t in b.normal_calls() if Callee(t["func"]).self_head == A.WORLD or Callee(t["func"]).trait in (A.T_SYSDATA, A.T_DYNSYSDATA)]
+    if world_calls != ["system_data"]:
+        problems.append("the controller borrows from the world through %s (expected a single system_data() moved into plan): a borrow kept across the inner dispatches conflicts with the inner systems" % world_calls)
     report.ob(rule, "RUN/<MultiDispatcher as BatchController>::run/loop", not problems,
               "; ".join(problems) if problems else "plan once, data moved into plan, `for _ in 0..n` with one dispatcher.dispatch(world) per iteration",
               site=b.loc(), config=config)
